@@ -100,12 +100,23 @@ fn shuffle<T>(rng: &mut Rng, v: &mut [T]) {
 }
 
 fn small_count(rng: &mut Rng, max: u64) -> u64 {
-    match rng.below(8) {
-        0 | 1 => 0,
-        2 | 3 => 1,
-        4 | 5 => 2 + rng.below(3),
-        6 => rng.below(max.min(16) + 1),
+    match rng.below(16) {
+        0..=3 => 0,
+        4..=7 => 1,
+        8..=11 => 2 + rng.below(3),
+        12 | 13 => rng.below(max.min(16) + 1),
+        14 => max - rng.below(2).min(max), // the largest count that fits, and one below
         _ => rng.below(max + 1),
+    }
+}
+
+/// rarely: a sub-element count that makes one entry very large (tens of KiB) while still fitting
+/// the entry's own length and count fields
+fn huge(rng: &mut Rng, cheap: bool, lo: u64, hi: u64) -> Option<u64> {
+    if !cheap && rng.chance(1, 400) {
+        Some(lo + rng.below(hi - lo + 1))
+    } else {
+        None
     }
 }
 
@@ -196,7 +207,12 @@ fn gen_entry(rng: &mut Rng, subject: K, h: &mut HandleCounts, faults: bool, chea
         Hmat => match if cheap { 0 } else { rng.below(3) } {
             0 => Op::new(HmMemProx).a(&[rng.val(32), rng.val(32)]),
             1 => {
-                let (i, t) = shape(rng);
+                let (mut i, mut t) = shape(rng);
+                if let Some(n) = huge(rng, cheap, 150, 300) {
+                    // a matrix of 2*i*t bytes around or beyond 64 KiB (the entry length is a dword)
+                    i = n;
+                    t = 100 + rng.below(200);
+                }
                 let mut s = options(rng, &[LocNonSeq, LocMinTransfer]);
                 for _ in 0..small_count(rng, 12) {
                     match rng.below(4) {
@@ -208,7 +224,7 @@ fn gen_entry(rng: &mut Rng, subject: K, h: &mut HandleCounts, faults: bool, chea
                 Op::new(HmSysLoc).a(&[rng.below(4), rng.below(6), rng.below(12), rng.val(64), i, t]).s(s)
             }
             _ => {
-                let n = small_count(rng, 40);
+                let n = huge(rng, cheap, 30_000, 40_000).unwrap_or_else(|| small_count(rng, 40));
                 let s = (0..n).map(|_| Op::new(MscHandle).a(&[rng.val(16)])).collect();
                 Op::new(HmMsc).a(&[rng.val(32), rng.val(64), rng.below(4), rng.below(4), rng.below(3), rng.below(3), rng.val(16)]).s(s)
             }
@@ -270,7 +286,9 @@ fn gen_entry(rng: &mut Rng, subject: K, h: &mut HandleCounts, faults: bool, chea
                 } else {
                     let mut s = Vec::new();
                     if h.cmo > 0 {
-                        for _ in 0..small_count(rng, 6) {
+                        // offsets: 12 + 4n must fit the 16-bit node length
+                        let n = huge(rng, cheap, 1_000, 16_000).unwrap_or_else(|| small_count(rng, 6));
+                        for _ in 0..n {
                             s.push(Op::new(HiCmo).a(&[refidx(rng, h.cmo)]));
                         }
                     }
@@ -283,14 +301,18 @@ fn gen_entry(rng: &mut Rng, subject: K, h: &mut HandleCounts, faults: bool, chea
                 if h.iommu == 0 {
                     return Vec::new();
                 }
-                (0..small_count(rng, 20))
+                // 16 + 20n (or 13 + name + 20n) must fit the 16-bit device length
+                let n = huge(rng, false, 1_000, 3_200).unwrap_or_else(|| small_count(rng, 20));
+                (0..n)
                     .map(|_| Op::new(RiMap).a(&[rng.val(32), rng.val(32), rng.val(32), refidx(rng, h.iommu), rng.below(2), rng.below(2), rng.below(2)]))
                     .collect()
             };
             match if h.iommu == 0 || cheap { 0 } else { rng.below(3) } {
                 0 => {
                     let p = pci(rng, faults);
-                    let wires: Vec<Op> = (0..if cheap { 0 } else { small_count(rng, 24) }).map(|_| Op::new(RiWire).a(&[rng.val(32), rng.below(2), rng.below(2), rng.val(16)])).collect();
+                    // 32 + 8n must fit the 16-bit device length
+                    let nw = if cheap { 0 } else { huge(rng, cheap, 2_000, 8_187).unwrap_or_else(|| small_count(rng, 24)) };
+                    let wires: Vec<Op> = (0..nw).map(|_| Op::new(RiWire).a(&[rng.val(32), rng.below(2), rng.below(2), rng.val(16)])).collect();
                     h.iommu += 1;
                     Op::new(RiIommu).a(&[rng.val(16), rng.below(16), rng.val(64), p[0], p[1], p[2], p[3], rng.val(32)]).s(wires)
                 }
@@ -370,7 +392,8 @@ fn gen_entry(rng: &mut Rng, subject: K, h: &mut HandleCounts, faults: bool, chea
             }
         }
         Rqsc => {
-            let n = if cheap { 0 } else { small_count(rng, 12) };
+            // 28 + sum of resource lengths must fit the 16-bit controller length
+            let n = if cheap { 0 } else { huge(rng, cheap, 300, 1_200).unwrap_or_else(|| small_count(rng, 12)) };
             let s = (0..n)
                 .map(|_| {
                     let idk = rng.below(5);
@@ -471,7 +494,8 @@ pub fn gen_trace(rng: &mut Rng, cfg: &GenCfg) -> Op {
                 // cross 2^24 bytes: header + n * entry size
                 n = if subject == Xsdt { (1 << 24) / 8 + 2 } else { (1 << 24) / 16 + 2 };
             }
-            let cheap = class >= 3 && class != 4 || (class == 4 && rng.chance(1, 2));
+            // long histories use mostly small entries; very large single entries only occur in short ones
+            let cheap = class >= 3 && class != 4 || (class == 4 && rng.chance(1, 2)) || n > 200;
             let inject = faults && n <= 512;
             let mut h = HandleCounts::default();
             let mut ops = Vec::with_capacity(n);
@@ -650,6 +674,8 @@ pub fn gen_trace(rng: &mut Rng, cfg: &GenCfg) -> Op {
         }
         SdtSubj => {
             let len = match rng.below(10) {
+                // a table just below 64 KiB, so that a handful of appends carry the length across 65535 -> 65536
+                0 if rng.chance(1, 6) => 65_480 + rng.below(56),
                 0 => 36,
                 1 => 37 + rng.below(8),
                 2 => 4096,
